@@ -45,31 +45,38 @@ func main() {
 		Want string `json:"alone"`
 		Got  string `json:"concurrent"`
 	}
-	var mu sync.Mutex
 	var diffs []diff
 	runs := 0
 	for r := 0; r < rounds; r++ {
 		var wg sync.WaitGroup
 		start := make(chan struct{})
+		// results are kept per goroutine and merged after the join: a shared lock taken between two bodies
+		// would order one goroutine's earlier bodies before another's later ones and hide their races
+		// from the detector. Without it every body of one goroutine is unordered with every body of the
+		// others within a round, so every pair of bodies (including a body with itself) is a judged pair.
+		outs := make([][]string, g)
 		for k := 0; k < g; k++ {
 			wg.Add(1)
+			outs[k] = make([]string, len(bodies))
 			go func(k int) {
 				defer wg.Done()
 				<-start
 				for j := 0; j < len(bodies); j++ {
 					i := (k + j + r) % len(bodies)
-					out := safeRun(bodies[i].Run, k+1)
-					mu.Lock()
-					runs++
-					if out != ref[i] && !bodies[i].Varies {
-						diffs = append(diffs, diff{bodies[i].Name, trim(ref[i]), trim(out)})
-					}
-					mu.Unlock()
+					outs[k][i] = safeRun(bodies[i].Run, k+1)
 				}
 			}(k)
 		}
 		close(start)
 		wg.Wait()
+		for k := 0; k < g; k++ {
+			for i := range bodies {
+				runs++
+				if outs[k][i] != ref[i] && !bodies[i].Varies {
+					diffs = append(diffs, diff{bodies[i].Name, trim(ref[i]), trim(outs[k][i])})
+				}
+			}
+		}
 	}
 	var names []string
 	for _, b := range bodies {
